@@ -276,7 +276,14 @@ func (q *Queue) handleDebugQueue(w http.ResponseWriter, r *http.Request) {
 // SetIndexed sets what the currently indexed options are for opts.RepoID.
 func (q *Queue) SetIndexed(opts IndexOptions, state indexState) {
 	q.mu.Lock()
-	item := q.getOrAdd(opts.RepoID)
+	item := q.get(opts.RepoID)
+	if item == nil {
+		// The repository was removed from the queue while it was being indexed.
+		// Do not resurrect it as an item without options: Bump would enqueue it
+		// and Pop would hand out empty IndexOptions.
+		q.mu.Unlock()
+		return
+	}
 
 	item.indexState = state
 	if state != indexStateFail {
